@@ -360,6 +360,7 @@ fn expr_json(e: &syn::Expr) -> Value {
         Assign(a) => json!({"k":"assign","l":expr_json(&a.left),"r":expr_json(&a.right)}),
         Block(b) => block_json(&b.block),
         Unsafe(b) => json!({"k":"unsafe","block":block_json(&b.block)}),
+        Const(c) => json!({"k":"const_block","block":block_json(&c.block)}),
         If(i) => json!({"k":"if","cond":expr_json(&i.cond),"then":block_json(&i.then_branch),
             "else":i.else_branch.as_ref().map(|(_, e)| expr_json(e))}),
         Let(l) => json!({"k":"letcond","pat":pat_json(&l.pat),"e":expr_json(&l.expr)}),
@@ -377,7 +378,9 @@ fn expr_json(e: &syn::Expr) -> Value {
         Cast(c) => json!({"k":"cast","e":expr_json(&c.expr),"ty":toks(&*c.ty)}),
         Macro(m) => {
             let path = toks(&m.mac.path).replace(' ', "");
-            let mut v = json!({"k":"macro","path":path,"tokens":m.mac.tokens.to_string()});
+            let args: Option<Vec<Value>> = m.mac.parse_body_with(syn::punctuated::Punctuated::<syn::Expr, syn::Token![,]>::parse_terminated)
+                .ok().map(|p| p.iter().map(expr_json).collect());
+            let mut v = json!({"k":"macro","path":path,"tokens":m.mac.tokens.to_string(),"args":args});
             if path == "vec" {
                 // vec![e; n]  or  vec![a, b, c]
                 if let Ok(rep) = syn::parse2::<syn::ExprRepeat>(proc_macro2::TokenStream::from(proc_macro2::TokenTree::Group(
